@@ -47,6 +47,61 @@ EMPTY_VALS = ["sa-", "sh-", "si120", "sj120.121", "sk-", "sl-", "sg-", "E:typ", 
 MKEYS = [[109], [110], [111], [112], [97]]
 
 
+# ---- round h: member names that look like the grouping key -----------------------------------------------
+# names with the key as a proper prefix AND the same StringUtils::Hash (32-bit SizeT), found once by a brute-force
+# search (random 16/15-unit suffixes over [a-z0-9], ~2^31 trials each); re-checked on every run through the harness
+# op `valhash` (a changed hash function shows up as a note, the cases are then dropped)
+COLLIDING_EXT = {
+    "k": ["k6hog7f6gd4aaaaaa", "kmz2d42e99caaaaaa", "kypfa97q15paaaaaa"],
+    "ab": ["ab6djvarqzssaaaaaa", "abit89c6fbsjaaaaaa", "abpqijqjxtngaaaaaa"],
+    "y": ["y8fn3rlzofhaaaaaa", "ysvwi77wnu6aaaaaa", "yu2u444xcggaaaaaa"],
+    "id": ["id33h4fo46nbaaaaaa", "idhsum315d76aaaaaa", "idxezwboqnv1aaaaaa", "id_c4ae1ed5000000"],
+    "year": ["yearbe6j6k84ybaaaaa", "yearh85vue7591aaaaa", "yeari14g5nmbktaaaaa", "year_tnkuwdaaaaaaaa"],
+    "": ["nzgech80spaaaaaa", "uo86bbakg3aaaaaa", "wfbr4phzeoaaaaaa"],
+}
+# different names of the key's own length with the same hash (the first unit does not enter the hash)
+COLLIDING_SAME = {"ab": ["bb", "cb"], "id": ["ad", "bd"], "year": ["aear", "aecq"]}
+
+
+def lookalikes(key):
+    """(sibling name, class) for a grouping key (text)."""
+    out = [(e, "ext+collision") for e in COLLIDING_EXT.get(key, [])]
+    out += [(e, "same-length collision") for e in COLLIDING_SAME.get(key, [])]
+    out += [(key + "2", "extension"), (key + key, "extension")]
+    if len(key) > 1:
+        out += [(key[:-1], "prefix"), (key[:1], "prefix")]
+    seen, res = {key}, []
+    for n, c in out:
+        if n not in seen:
+            seen.add(n)
+            res.append((n, c))
+    return res
+
+
+def check_collisions(ctx, exe):
+    """drop (with a note) the names that no longer collide with their key."""
+    lines, who = [], []
+    for table in (COLLIDING_EXT, COLLIDING_SAME):
+        for k, names in table.items():
+            for n in [k] + names:
+                lines.append("valhash " + V.units([ord(c) for c in n]))
+                who.append((id(table), k, n))
+    out, _ = core.run_lines(exe, lines)
+    h = {w: o for w, o in zip(who, out)}
+    for table in (COLLIDING_EXT, COLLIDING_SAME):
+        for k in list(table):
+            keep = [n for n in table[k] if h[(id(table), k, n)] == h[(id(table), k, k)]]
+            if len(keep) != len(table[k]):
+                ctx.notes.append("StringUtils::Hash changed: %d of %d names no longer collide with key %r (cases dropped)" % (
+                    len(table[k]) - len(keep), len(table[k]), k))
+            table[k] = keep
+
+
+# grouping values that are == for Value::operator== or print the same text, for adjacent rows in both orders
+ADJ_ZOO = ["r0000000000000000", "r8000000000000000", "n0", "i0", "sa48", "sa45.48", "n5", "i5", "r4014000000000000", "sa53", "T",
+           "sa116.114.117.101", "F", "N", "sa110.117.108.108", "sa-", "sh-", "r3ff8000000000000", "sa49.46.53", "i-5", "sa45.53"]
+
+
 class Case:
     def __init__(self):
         self.ops = []
@@ -107,6 +162,14 @@ def object_ops(c, rng, i, gkey, layout, kval):
             c.ops.append("set 1/ia%d/ka%s n9" % (i, V.units(k)))
             c.ops.append("rem 1/ia%d %s %s" % (i, V.units(k), rng.choice("abc")))
             c.removed = True
+        elif what.startswith("c:"):
+            # a sibling member with a given name (look-alike of the grouping key) and a given payload
+            _, name, pay = what.split(":", 2)
+            nm = V.units([ord(ch) for ch in name])
+            if pay == "OBJ":
+                c.ops.append("set 1/ia%d/k%s%s/ka120 n1" % (i, rng.choice("abcdef"), nm))
+            else:
+                c.ops.append("set 1/ia%d/k%s%s %s" % (i, rng.choice("abcdef"), nm, pay))
         elif what == "u":
             c.ops.append("set 1/ia%d/ka117.%d z" % (i, 48 + used))
             used += 1
@@ -153,6 +216,26 @@ def gen_cases(ctx):
             for layout in (["K"], ["m", "K"], ["K", "m"], ["x", "K", "m"]):
                 cases.append(make_case(rng, gkey, [(layout, ev)]))
                 cases.append(make_case(rng, gkey, [(["K", "m"], "sa120"), (layout, ev), (["m", "K"], rng.choice(EMPTY_VALS)), (["K"], "n1")]))
+    # every ordered pair of grouping values of a small zoo on ADJACENT rows (values that are == but print differently,
+    # such as 0.0 / -0.0, or print the same but are different kinds), framed by a third row
+    for a in ADJ_ZOO:
+        for b in ADJ_ZOO:
+            gk = rng.choice(GKEYS)
+            cases.append(make_case(rng, gk, [(["K", "m"], a), (["m", "K"], b), (["K"], a)]))
+    for a in ADJ_ZOO[:10]:
+        for b in ADJ_ZOO[:10]:
+            cases.append(make_case(rng, [107], [(["K"], b), (["K"], a), (["K"], b), (["K"], b)]))
+    # sibling members whose NAME looks like the grouping key: the key as a proper prefix with the same hash, plain
+    # extensions and prefixes, same-length hash collisions — before and after the grouping member, with scalar,
+    # string and container values; and the reverse (the grouping key is the long name, the sibling its prefix)
+    for key in COLLIDING_EXT:
+        for name, cls in lookalikes(key):
+            for pay in ("sa90.90", "n77", "OBJ"):
+                for gk, sib in ((key, name), (name, key)):
+                    g = [ord(ch) for ch in gk]
+                    tok = "c:%s:%s" % (sib, pay)
+                    cases.append(make_case(rng, g, [([tok, "K"], "sa120"), (["K", tok], "sa120"), (["m", "K", tok, "m"], "n1")]))
+                    cases.append(make_case(rng, g, [(["K", tok], "sa120")]))
     # random: 0..6 objects, longer layouts, every key-value kind, members of every kind
     for _ in range(1500 if not ctx.thorough else 30000):
         n = rng.choice([1, 2, 3, 3, 4, 5, 6])
@@ -180,6 +263,7 @@ def run(ctx):
     exe = ctx.build_harness("value_harness.cpp")
     if not (drv and exe):
         return
+    check_collisions(ctx, exe)
     cases = gen_cases(ctx)
     corpus = []
     for fn in sorted(glob.glob(os.path.join(core.VERIF, "corpus", "C18", "*.txt"))):
